@@ -39,6 +39,9 @@ type Engine struct {
 	LogSMT      string            // directory for per-worker SMT transcripts ("" = off)
 	Params      map[string]int    // concrete instance parameters read by vparam()
 	Fresh       bool
+	// StopOn, if set, is consulted for every violation; returning true ends the exploration early.
+	StopOn   func(Violation) bool
+	Deadline time.Time // zero = none; exploration stops (inconclusive) when passed
 	SlowMs      int
 	SetLogic    string
 
@@ -236,6 +239,7 @@ type Summary struct {
 	EngineError string
 	Samples     []string
 	Solver      string
+	Stopped     bool // exploration ended early at a reportable violation
 }
 
 func (s *Summary) merge(r *PathResult) {
@@ -315,7 +319,30 @@ func (e *Engine) Run(h *ssa.Function, workers int) *Summary {
 					sum.merge(res)
 				}
 				tooMany := sum.Paths >= e.MaxPaths
+				stopV := false
+				if res != nil && e.StopOn != nil {
+					for _, v := range res.Violations {
+						if e.StopOn(v) {
+							stopV = true
+						}
+					}
+				}
+				if !e.Deadline.IsZero() && time.Now().After(e.Deadline) && sum.EngineError == "" {
+					sum.EngineError = "instance time budget exceeded"
+					eerr = sum.EngineError
+				}
+				if stopV {
+					sum.Stopped = true
+				}
 				mu.Unlock()
+				if stopV {
+					e.done()
+					e.workMu.Lock()
+					e.stopped = true
+					e.workMu.Unlock()
+					e.cond.Broadcast()
+					return
+				}
 				e.done()
 				if eerr != "" || tooMany {
 					e.workMu.Lock()
